@@ -129,10 +129,25 @@ def body(chk, db, cfgname):
         init_false = dv.get("init") is not None and ctx.key(dv["init"]) == ("lit", 0)
         ok_sets = bool(sets)
         krange = None
+        unknown_form = False
         for m in sets:
             mn = f.nodes[m]
+            if mn["k"] == "bin" and mn["op"] == "=" and ctx.key(mn["r"])[0] == "mcall" and ctx.key(mn["r"])[1] == DM + "::isRetained" and ctx.key(mn["r"])[2] == dmk:
+                # form B:  for (k = 0; k < n && !flag; ++k) flag = DM.isRetained(LeftIndices[k]);
+                L = enclosing_loops(f, m)
+                shp = loop_shape(f, ctx, L[0]) if L else None
+                arg = deconv(ctx.key(mn["r"])[3])
+                stops = [x for x in (shp or {}).get("extra", [])]
+                only_flag = all(x in (("false", flag), ("true", ("un", "!", flag))) for x in stops)
+                if shp is not None and shp["kind"] == "index" and shp["start"] == ("lit", 0) and shp["bound"][0] == "lit" and only_flag and \
+                        not [e for e in shp["exits"] if e[1] != "stop-condition"] and arg[0] == "op" and arg[1] == "[]" and arg[2] == arr and arg[3][:2] == shp["var"][:2]:
+                    krange = set(range(0, shp["bound"][1] + (1 if shp["rel"] == "<=" else 0)))
+                else:
+                    unknown_form = True
+                continue
             if not (mn["k"] == "bin" and mn["op"] == "=" and ctx.key(mn["r"]) == ("lit", 1)):
                 ok_sets = False
+                unknown_form = unknown_form or not (mn["k"] == "bin" and mn["op"] == "=" and ctx.key(mn["r"])[0] == "lit")
                 continue
             mfa = at.get(f.cfg.pos1(m), frozenset())
             ret = [y for y in mfa if y[0] == "true" and y[1][0] == "mcall" and y[1][1] == DM + "::isRetained" and y[1][2] == dmk]
@@ -146,7 +161,9 @@ def body(chk, db, cfgname):
                 ok_sets = False
                 continue
             krange = set(range(0, shp["bound"][1] + (1 if shp["rel"] == "<=" else 0)))
-        if init_false and ok_sets and krange == idxs and len(idxs) == len(used):
+        if unknown_form:
+            flag = None        # falls through to "form not analysed"
+        elif init_false and ok_sets and krange == idxs and len(idxs) == len(used):
             good = True
         elif krange is not None and krange != idxs:
             why = "the retention loop looks at LeftIndices[k] for k in %s but the part uses blocks %s: a stripe whose only retained block is not inspected is dropped" % (sorted(krange), sorted(idxs))
